@@ -97,7 +97,7 @@ def random_configs(rnd, n):
             ts = [rnd.randint(0, 12) for _ in range(k)]
             if mono:
                 ts = sorted(set(ts))
-            wins.append(([-INF] if rnd.randint(0, 1) else []) + ts + [INF])
+            wins.append(([-INF] if rnd.randint(0, 1) else []) + ts + [INF + 1 if rnd.random() < 0.12 else INF])    # some inputs carry an overflow marker
         poldep = rnd.random() < 0.6
         if poldep:
             dls = [[[rnd.randint(0, 4) for _ in range(2)] for _ in range(2)] for _ in range(nin)]
@@ -154,6 +154,7 @@ def run(ck, rnd, pids, design=True):
     ck.count('kernel-configs-complete-domain', ncomplete)
     ck.count('kernel-configs-random', len(recs) - ncomplete)
     ck.count('kernel-overflows', sum(1 for x in recs if x['z'] and x['z'][-1] == INF + 1))
+    ck.count('kernel-marked-inputs', sum(1 for x in recs if any(w[-1] == INF + 1 for w in x['win'])))
     judge(ck, recs, pids)
     # conformance of the real kernel with the model (DRIFT only)
     ok = [x for x in recs if not x['raised']]
@@ -165,7 +166,7 @@ def run(ck, rnd, pids, design=True):
         ck.drift('kernel output differs from WaveEval.tla for lut=%d inputs=%s delays=%s cap=%d: real z=%s' % (x['lut'], x['win'], x['dl'], x['cap'], x['z']))
     ck.count('model-followed-overflow', sum(1 for i in r2.infos if i[0] == 'tag'))
     ck.sample(dict(kernel_config=dict(lut=recs[-1]['lut'], inputs=recs[-1]['win'], delays=recs[-1]['dl'], cap=recs[-1]['cap']), produced=recs[-1]['z']))
-    ck.need_cover(['kernel-configs-complete-domain', 'kernel-configs-random', 'kernel-overflows'])
+    ck.need_cover(['kernel-configs-complete-domain', 'kernel-configs-random', 'kernel-overflows', 'kernel-marked-inputs'])
     return recs
 
 
